@@ -1,6 +1,7 @@
 """EX driver: the real Executor stepped tick by tick in lock-step with the
 reference model, driven by a seeded chaos scheduler (generate mode) or by a
 recorded command script (replay mode).  DESIGN 2.1."""
+import random as _random
 from fractions import Fraction as F
 
 from .common import Discard, Violation, import_repo, digest
@@ -77,6 +78,73 @@ class EventLog:
 
 _LOG = None
 _installed = False
+
+
+def observe(ex, pipelines, rr, results=(), assignments=()):
+    """A bystander reading public, documented-as-read-only state at an arbitrary moment (a dashboard, a logging scheduler,
+    a debugger session): a seeded subset of getters, to_dict and repr calls on executor, pools, containers, results,
+    pipelines, operators and segments.  Nothing is checked here - if looking changes anything, the lock-step model or the
+    paired run notices in the ticks that follow.  Exceptions are swallowed (and counted): observation only."""
+    n = errs = 0
+
+    def call(f, *a):
+        nonlocal n, errs
+        n += 1
+        try:
+            return f(*a)
+        except Exception:  # noqa: BLE001
+            errs += 1
+            return None
+    if rr.random() < 0.7:
+        for f in (ex.get_pool_id_with_max_avail_ram, ex.num_completed, ex.container_tick_times, ex.get_total_ram_gb,
+                  ex.get_allocated_ram_gb, ex.get_consumed_ram_gb):
+            if rr.random() < 0.5:
+                call(f)
+    for pl in ex.pools:
+        if rr.random() < 0.5:
+            call(pl.get_allocated_ram_gb)
+            call(pl.get_consumed_ram_gb)
+        if rr.random() < 0.4:
+            call(pl.to_dict)
+        for lst in (pl.active_containers, pl.suspending_containers, pl.suspended_containers[-3:]):
+            for c in list(lst):
+                if rr.random() < 0.4:
+                    for f in (c.get_pipeline_id, c.ticks_elapsed, c.is_completed, c.get_current_memory_usage,
+                              c.can_suspend_container, c.is_suspended, c.to_dict):
+                        if rr.random() < 0.6:
+                            call(f)
+                    call(repr, c)
+                    call(repr, c.assignment)
+                    if c in pl.active_containers and rr.random() < 0.5:
+                        call(pl.get_container_by_id, c.container_id)
+    for r_ in results:
+        if rr.random() < 0.5:
+            call(r_.failed)
+            call(r_.to_dict)
+            call(repr, r_)
+    for a in assignments:
+        if rr.random() < 0.5:
+            call(repr, a)
+    from eudoxia.workload import OperatorState as S_
+    for p in pipelines:
+        if rr.random() < 0.3:
+            rs = call(p.runtime_status)
+            call(p.to_dict)
+            if rs is not None:
+                call(rs.is_pipeline_successful)
+                call(rs.get_ops, rr.choice(list(S_)))
+                call(rs.get_ops, [S_.PENDING, S_.FAILED], True)
+            ops = call(list, p.values) or []
+            for o in ops:
+                if rr.random() < 0.5:
+                    call(o.state)
+                    call(o.to_dict)
+                    for sg in call(o.get_segments) or []:
+                        call(sg.get_io_seconds)
+                        call(sg.get_cpu_time, rr.choice([1, 2, 8]))
+                        call(sg.get_peak_memory_gb)
+                        call(sg.get_seconds_until_oom, rr.choice([0.5, 4, 64]))
+    return n, errs
 
 
 KILL_MEM = {}       # container id -> memory held when Container.kill was called (reset per run)
@@ -718,6 +786,7 @@ def run(scn, rng=None):
             chaos = Chaos(rng, cfg, scn["knobs"], built, mex, F(20, tps))
             scn["script"] = []
         lab = {}         # label -> MCont
+        obs_rng = _random.Random(scn["observe"]) if scn.get("observe") is not None else None
         obs = Obs()
         acct = {"accepted": 0, "ok": 0, "fail": 0}
         prev = snapshot(ex, built)
@@ -842,6 +911,11 @@ def run(scn, rng=None):
                 # another simulation being set up in the same process must not disturb this executor
                 Executor(num_pools=1, cpus_per_pool=1, ram_gb_per_pool=1, ticks_per_second=tps)
                 out["faults"]["other_executor_constructed"] = 1
+            if obs_rng is not None:
+                nobs, eobs = observe(ex, [b.p for b in built if b.at <= t], obs_rng, assignments=[a for _, a in rasg])
+                out["faults"]["bystander_reads"] = out["faults"].get("bystander_reads", 0) + nobs
+                if eobs:
+                    out["probes"]["bystander_read_raised"] = out["probes"].get("bystander_read_raised", 0) + eobs
             # ---- executor phase -------------------------------------------------
             stop = False
             for attempt in (0, 1):
